@@ -168,6 +168,16 @@ MUTANTS = [
     m('C16', 'lbp_var_to_factor_keeps_own', (FG, "                    mu_n[v][f] = pre - mu_f[f][v] #sum(mu_f[c][v] for c in complement)", "                    mu_n[v][f] = pre #sum(mu_f[c][v] for c in complement)")),
     m('C16', 'fg_marginals_forget_total', (FG, "            belief += np.log(self.total) - belief.logsumexp()\n            marginals[cl] = belief.exp()", "            belief += - belief.logsumexp()\n            marginals[cl] = belief.exp()")),
     m('C16', 'hps_belief_linear_overflow', (RG, "                belief += np.log(self.total) - belief.logsumexp()\n                mu[r] = belief.exp()", "                mu[r] = belief.exp()\n                mu[r] = mu[r] * (self.total / mu[r].sum())")),
+    # ---- C17 ------------------------------------------------------------
+    m('C17', 'cc_denominator_without_self', (RG, "                cc[p,r] = c0[p] / (c0[r] + sum(c0[p1] for p1 in self.parents[r]))", "                cc[p,r] = c0[p] / (sum(c0[p1] for p1 in self.parents[r]))")),
+    m('C17', 'downward_parent_message_sign', (RG, "sum(messages[c,p] for c in self.children[p] if c!=r) - sum(messages[p,p1] for p1 in self.parents[p])) / c0[p]", "sum(messages[c,p] for c in self.children[p] if c!=r) + sum(messages[p,p1] for p1 in self.parents[p])) / c0[p]")),
+    m('C17', 'upward_uses_new_downward', (RG, "                    new[r,p] = cc[p,r]*(pot[r] + sum(messages[c,r] for c in self.children[r]) + sum(messages[p1,r] for p1 in self.parents[r])) - messages[p,r]", "                    new[r,p] = cc[p,r]*(pot[r] + sum(messages[c,r] for c in self.children[r]) + sum(new[p1,r] for p1 in self.parents[r])) - messages[p,r]")),
+    m('C17', 'pruning_keeps_one_parent', (RG, "                min_edges.extend([(u,r) for u in canonical])", "                min_edges.extend([(u,r) for u in list(canonical)[:1]])")),
+    m('C17', 'belief_ignores_children', (RG, "                belief = (pot[r] + sum(messages[c,r] for c in self.children[r]) - sum(messages[r,p] for p in self.parents[r])) / c0[r]", "                belief = (pot[r] - sum(messages[r,p] for p in self.parents[r])) / c0[r]")),
+    m('C17', 'intersection_potentials_dropped', (RG, "        c0 = self.counting_numbers\n        pot = {}\n        for r in self.regions:\n            if r in self.cliques: pot[r] = potentials[r]", "        c0 = self.counting_numbers\n        pot = {}\n        for r in self.regions:\n            if r in self.cliques and len(self.parents[r]) == 0: pot[r] = potentials[r]")),
+    m('C17', 'early_stop_loose', (RG, "        return self.primal_feasibility(mu) <= self.convergence", "        return self.primal_feasibility(mu) <= max(self.convergence, 1e-3)")),
+    m('C17', 'revert_F12_duplicate_regions', (RG, "                if len(z) > 0 and not any(set(z) == set(r) for r in regions):", "                if len(z) > 0 and not z in regions:")),
+    m('C16', 'revert_F12_duplicate_regions', (RG, "                if len(z) > 0 and not any(set(z) == set(r) for r in regions):", "                if len(z) > 0 and not z in regions:")),
 ]
 
 
